@@ -44,7 +44,7 @@ ASSUMPTIONS = [
     'is not a metric and is excluded)',
     'the near-pi grid stops at pi - 1e-6 and pi itself (exactly symmetric and rounding-level asymmetric half-turns both occur)',
 ]
-REQUIRED_CLASSES = ['stack-sizes', 'containers:matrix', 'containers:quaternion', 'containers:quaternion-rows', 'pairs:group', 'pairs:conjugate', 'zero:same', 'zero:antipodal', 'angle:pi', 'angle:<1e-2',
+REQUIRED_CLASSES = ['stack-sizes', 'stack-sign-patterns', 'containers:matrix', 'containers:quaternion', 'containers:quaternion-rows', 'pairs:group', 'pairs:conjugate', 'zero:same', 'zero:antipodal', 'angle:pi', 'angle:<1e-2',
                     'angle:near-pi', 'inv:left', 'inv:right', 'triangle:tight', 'triangle:strict', 'triangle:geodesic',
                     'entry:single', 'entry:N-row', 'cf:right', 'cf:left']
 
@@ -725,11 +725,39 @@ def job_sizes(ctx, k):
                         ctx.fail(f'{m}[N-row] with missing (NaN) samples returns one value per row', f'N={n} gaps={gaps} in {which} k{k}', list(Vn.shape), [n]); continue
                     for j in range(n):
                         if j in gaps:
+                            # a missing sample has no distance: never a number (0.0 would say "the two rotations coincide")
+                            ctx.evals += 1
+                            if not np.isnan(Vn[j]):
+                                ctx.fail(f'{m}[N-row]: the row of a missing (NaN) sample is NaN, not a distance', f'N={n} gaps={gaps} in {which} j={j} k{k}', Vn[j], 'nan')
                             continue
                         sgl = float(getattr(M, m)((Q1u if m != 'chordal' else R1)[j].copy(), (Q2u if m != 'chordal' else R2)[j].copy()))
                         ctx.evals += 1
                         if not (abs(Vn[j] - sgl) <= 1e-8):
                             ctx.fail(f'{m}[N-row]: rows next to a missing (NaN) sample keep the distance of their own pair', f'N={n} gaps={gaps} in {which} j={j} k{k}', Vn[j], sgl, 1e-8)
+        if n <= 5:
+            # every sign pattern of the rows (q and -q are the same rotation, row by row): 2^n patterns on either argument, incl. "only row 0 flipped"
+            import itertools as _it
+            for m in QM:
+                base = np.asarray(getattr(M, m)(Q1u.copy(), Q2u.copy()), float)
+                for pat in _it.product((1.0, -1.0), repeat=n):
+                    sg = np.array(pat)[:, None]
+                    for which in ('first', 'second', 'both'):
+                        X1 = Q1u * sg if which in ('first', 'both') else Q1u.copy()
+                        X2 = Q2u * (sg if which == 'second' else (sg[::-1] if which == 'both' else 1.0))
+                        ctx.evals += 1
+                        try:
+                            Vs = np.asarray(getattr(M, m)(X1.copy(), X2.copy()), float)
+                        except Exception as ex:
+                            ctx.fail(f'{m}[N-row] raises for a sign pattern of the rows', f'N={n} signs={pat} on {which} k{k}', repr(ex)[:120], base); continue
+                        if Vs.shape != base.shape or not np.all(np.abs(Vs - base) <= 1e-12):
+                            ctx.fail(f'{m}[N-row]: unchanged when any subset of the rows is replaced by its negative', f'N={n} signs={pat} on {which} k{k}', Vs, base, 1e-12)
+                # coincident rotations given with opposite signs in any subset of rows: exactly the zero set
+                for pat in _it.product((1.0, -1.0), repeat=n):
+                    Vz = np.asarray(getattr(M, m)(Q1u.copy(), Q1u * np.array(pat)[:, None]), float)
+                    ctx.evals += 1
+                    if Vz.shape != (n,) or not np.all(np.abs(Vz) <= 3e-8):
+                        ctx.fail(f'{m}[N-row]: zero for coincident rotations whatever the signs of the rows', f'N={n} signs={pat} k{k}', Vz, 0.0, 3e-8)
+            ctx.cls('stack-sign-patterns')
         V0 = _call_n(ctx, 'chordal', R1, R1, lambda: f'N={n} same k{k}')
         ctx.evals += 1
         if not np.all(V0 == 0.0):
